@@ -39,7 +39,7 @@ impl Property for C15 {
         "C15"
     }
     fn cases(&self, tier: Tier) -> u32 {
-        tier.pick(1000, 16_000)
+        tier.pick(1_000, 12_000)
     }
     fn strategy(&self, tier: Tier) -> BoxedStrategy<Self::Abs> {
         let small = (
